@@ -399,3 +399,41 @@ def c12_r5(ctx):
                            detail="%s.__init__ assigns self.%s and then calls a method that reads it; assigning it afterwards leaves the "
                                   "derived state computed from the old value" % (k.name, t.attr), loc=ctx.nodeloc(f, st))
     ctx.ob("whole program", n >= 5, "%d attribute stores on freshly constructed project objects examined" % n)
+
+
+@rule("C12", "R6", "K10", "skip_to_quality() answers with a count on every path",
+      min_instances=12, also=("C05", "C11"),
+      clause="For every matcher class that can be instantiated, the resolved skip_to_quality() leaves through a `return <expression>` "
+             "on every normal path (no fall off the end, no bare return) and the expression is not a boolean or None literal: the "
+             "collector adds the result to a counter, IntersectionMatcher and RequireMatcher read it as 'how many blocks were "
+             "skipped' to decide whether the cursor still has to be stepped.")
+def c12_r6(ctx):
+    prog = ctx.prog
+    from .common import constructed_names
+    built = constructed_names(prog)
+    seen = set()
+    n = 0
+    for K in M.matcher_classes(prog):
+        if K.name not in built:
+            continue        # an intermediate base class is judged through the classes that are actually constructed
+        f = prog.lookup(K, "skip_to_quality")
+        if f is None or f.qualname in seen or is_abstract_body(f):
+            continue
+        seen.add(f.qualname)
+        n += 1
+        ctx.saw(f)
+        g = cfgmod.cfg_of(f, exc_edges=False)
+        falls = [pr for pr, _ in g.exit.preds if pr.kind != "return"]
+        rets = [x for x in g.nodes if x.kind == "return"]
+        bad = []
+        if falls:
+            bad.append("a path falls off the end (returns None)")
+        for r in rets:
+            v = r.ast.value
+            if v is None:
+                bad.append("bare return")
+            elif isinstance(v, ast.Constant) and (v.value is None or isinstance(v.value, bool)):
+                bad.append("returns %r" % (v.value,))
+        ctx.ob(f, not bad, "skip_to_quality() returns a count on every path", detail="; ".join(bad))
+    if n < 12:
+        raise AnalysisError("only %d skip_to_quality implementations of instantiable matchers" % n)
